@@ -439,6 +439,35 @@ class AliasAnalysis:
                 return True
         return False
 
+    def _view_local(self, f: FunctionInfo, name: str) -> bool:
+        """is `name` a local whose only definition is a numpy VIEW (basic slice, .T, reshape/ravel, np.asarray) of an array parameter or
+        of an attribute of self"""
+        defs = [n for n in _walk_fn(f.node) if isinstance(n, ast.Assign) and any(isinstance(t, ast.Name) and t.id == name for t in n.targets)]
+        if len(defs) != 1 or any(x.arg == name for x in f.node.args.posonlyargs + f.node.args.args + f.node.args.kwonlyargs):
+            return False
+        e = defs[0].value
+        seen_view = False
+        for _ in range(5):
+            if isinstance(e, ast.Subscript):
+                sl = e.slice
+                parts = sl.elts if isinstance(sl, ast.Tuple) else [sl]
+                if not any(isinstance(x, ast.Slice) for x in parts) or any(isinstance(x, (ast.List, ast.ListComp)) for x in parts):
+                    return False          # element access (a scalar) or fancy indexing (a copy)
+                seen_view, e = True, e.value
+            elif isinstance(e, ast.Attribute) and e.attr == "T":
+                seen_view, e = True, e.value
+            elif isinstance(e, ast.Call) and isinstance(e.func, ast.Attribute) and e.func.attr in ("reshape", "ravel", "view", "squeeze", "transpose"):
+                seen_view, e = True, e.func.value
+            elif isinstance(e, ast.Call) and (self.repo.dotted_of(f.module, e.func) or "") in ("numpy.asarray", "numpy.asanyarray") and len(e.args) == 1 and not e.keywords:
+                seen_view, e = True, e.args[0]
+            else:
+                break
+        if not seen_view:
+            return False
+        if isinstance(e, ast.Name):
+            return self._array_param(f, e.id)
+        return isinstance(e, ast.Attribute) and isinstance(e.value, ast.Name) and e.value.id == "self"
+
     # ------------------------------------------------------------------ mutation sites
     def _mutation_sites(self, f: FunctionInfo):
         """yield (node, receiver expr, description)"""
@@ -453,6 +482,9 @@ class AliasAnalysis:
                         yield n, base, norm_stmt(n)[:120]
                     elif isinstance(n, ast.AugAssign) and isinstance(t, ast.Name) and self._array_param(f, t.id):
                         # `p *= c` on an array parameter works in place on the caller's array (on a number it would only rebind the name)
+                        yield n, t, norm_stmt(n)[:120]
+                    elif isinstance(n, ast.AugAssign) and isinstance(t, ast.Name) and self._view_local(f, t.id):
+                        # `v = p[:, :3]; v /= c`: a slice of an array is a view, the augmented assignment writes into the parent array
                         yield n, t, norm_stmt(n)[:120]
             elif isinstance(n, ast.Call):
                 if isinstance(n.func, ast.Attribute) and n.func.attr in MUTATING_METHODS and not self.by_name.get(n.func.attr):
@@ -508,6 +540,27 @@ class AliasAnalysis:
                                 self.sites += 1
                                 self._judge(f, n, a, src(n)[:120], f"{g.where} modifies its parameter `{p}` in place")
                                 self._judge_query(f, n, a, g, p)
+        # 3. PUBLIC value-returning functions that modify an array parameter in place (also through a slice view of it): whoever calls
+        #    them with an array of their own gets that array changed behind their back, whatever the repository's own call sites pass
+        for g in self.funcs:
+            short = g.name.split(".")[-1]
+            if short.startswith("_") or not self.mut_params.get(g.where):
+                continue
+            rets = [r for r in _walk_fn(g.node) if isinstance(r, ast.Return) and r.value is not None]
+            for p in sorted(self.mut_params[g.where]):
+                if p in ("self", "cls") or not rets or all(isinstance(r.value, ast.Name) and r.value.id == p for r in rets):
+                    continue
+                site = None
+                for node, recv, desc in self._mutation_sites(g):
+                    if any(o[0] == "param" and o[1] == g.where and o[2] == p for o in self.origins(recv, g)):
+                        # only array-style mutation (element / slice store, augmented assignment, ufunc out=): a list argument that is
+                        # sorted or extended is judged by the rules of its property
+                        if isinstance(node, ast.AugAssign) or (isinstance(node, ast.Assign) and isinstance(node.targets[0], ast.Subscript)):
+                            site = (node, desc)
+                            break
+                if site is not None:
+                    self.findings.append(("impure", g, site[0], site[1], f"{g.where} returns a value and also modifies its parameter `{p}` in place "
+                                          "(directly or through a view of it): the caller's array is not the same after the call"))
         return self
 
     def _judge_query(self, f, node, arg, g, p):
@@ -610,7 +663,7 @@ def check_aliases(ctx, repo: Repo, pid: str, module_names: List[str], report_mod
     cf = scope_functions(cr, ("ctl",))
     ca = AliasAnalysis(cr, cf).run()
     kinds = sorted({(k, f.name) for k, f, *_ in ca.findings})
-    if kinds != [("leak", "use2"), ("memo", "use"), ("query", "ask")]:
+    if kinds != [("impure", "count_big"), ("leak", "use2"), ("memo", "use"), ("query", "ask")]:
         ctx.inconclusive("ALIAS", f"{pid}.alias.control", "positive control of the alias rule did not match", "<control>", witness=str(kinds))
         return None
     funcs = []
@@ -637,6 +690,9 @@ def check_aliases(ctx, repo: Repo, pid: str, module_names: List[str], report_mod
                 "leak": "object state handed out by reference by a getter is modified in place by the caller: later calls of the getters "
                         "of that object return different values",
                 "default": "a mutable default argument is modified in place: state shared between calls",
+                "impure": "a public, value-returning function modifies the array it is given in place: a caller that uses the same array again "
+                          "(a second assignment, a pseudotrajectory generated afterwards) computes from the modified values, so results depend "
+                          "on what was called before",
                 "query": "a value-returning helper modifies, in place, the array it is given, and a method hands it the object's own input "
                          "attribute: after that call every result computed from the attribute uses the modified values (results depend on "
                          "the history of calls)"}[kind]
